@@ -103,6 +103,8 @@ def run(ctx):
     r15_5(ctx, rep, roles)
     from .. import wrappers
     wrappers.listeners(ctx, rep, roles, "C15", "R15.6")
+    from .. import identity
+    identity.check_keys(ctx, rep, "C15", "R15.7", ["listeners", "kv"])
 
 
 def r15_1(ctx, rep):
